@@ -97,6 +97,8 @@ func cmdRun(args []string) int {
 	budget := fs.Int("budget", 0, "step budget")
 	timeout := fs.Int("qtimeout", 10000, "query timeout ms")
 	spare := fs.Int("spare", 0, "append spare")
+	limit := fs.Int("limit", 0, "stop exploring after this many seconds")
+	noModels := fs.Bool("nomodels", false, "run real code instead of validated models")
 	noDomain := fs.Bool("nodomain", false, "disable byte-domain front solver")
 	mergePaths := fs.Int("mergepaths", 0, "max paths of a merged callee")
 	fs.Parse(args)
@@ -106,8 +108,12 @@ func cmdRun(args []string) int {
 		return 2
 	}
 	fmt.Printf("loaded in %.1fs\n", p.LoadTimeS)
-	spec := sym.HarnessSpec{Pkg: modPath + "/" + *pkg, Func: *fn, Opts: sym.Options{Trace: *trace, Merge: *merge, NoRegion: *noRegion, StepBudget: *budget, QueryTimeout: *timeout, AppendSpare: *spare, MaxMergePath: *mergePaths, NoDomain: *noDomain}}
-	res := sym.RunHarness(p, spec, *workers, 8, time.Time{})
+	spec := sym.HarnessSpec{Pkg: modPath + "/" + *pkg, Func: *fn, Opts: sym.Options{Trace: *trace, Merge: *merge, NoRegion: *noRegion, StepBudget: *budget, QueryTimeout: *timeout, AppendSpare: *spare, MaxMergePath: *mergePaths, NoDomain: *noDomain, NoModels: *noModels}}
+	dl := time.Time{}
+	if *limit > 0 {
+		dl = time.Now().Add(time.Duration(*limit) * time.Second)
+	}
+	res := sym.RunHarness(p, spec, *workers, 8, dl)
 	printResult(res)
 	if len(res.Violations) > 0 {
 		return 1
